@@ -104,6 +104,16 @@ CLAIMED = {
              "kernels and robust GCV are not claimed (zero start curve is not offset invariant); linear clause for V-curve kernels outside "
              "(log of an exact fit). Trusted: pysym, z3.",
         technique="2-run relational symbolic execution, callee abstraction with exactly-proved lemmas, z3 LRA/UF", ref="5 C06"),
+    "C20": dict(
+        text="Bounded symbolic verification (exact-linear): tinterpolate with ws2d inlined and lambda = 1e-5 as in the source is executed "
+             "on symbolic int16 observations for six mark/label layouts (5/8/10/16-day and irregular marks; pentad, dekad, "
+             "dekad-of-year across New Year, month-like and daily labels; up to 60 days quick / 400 thorough); z3 decides that "
+             "every output is the half-even rounding of the period mean of the curve defined only by its normal equations, that "
+             "constants and lines in day number are reproduced, that every output is written, inputs are not written and indices "
+             "stay in bounds; whitint: int16 requirement and one output per distinct label.",
+        note="Floats exact reals (float64 conditioning over thousands of days outside). If the solve leaves the linear regime (weights "
+             "depending on observations) that is handed to the replayer as a candidate rather than decided. Trusted: pysym, z3.",
+        technique="symbolic execution + z3 QF_LIRA against the normal equations", ref="5 C20"),
 }
 
 NOT_APPLICABLE = {
